@@ -1180,9 +1180,106 @@ def st_reuse_case(draw):  # noqa: C901
 
 
 # ===================================================================================== dispatch / exploration
+# ===================================================================================== facade factories taking *preds
+# ``enum_by_name(*preds)``, ``flag_by_member_names(*preds)``, ``enum_by_value(first_pred, *preds, tp=...)`` are documented
+# as "predicates specifying where the provider should be used": the provider applies where ANY of them matches, i.e.
+# ``f(p, q)`` acts as ``f(P[p] | P[q])`` (the identity P[A, B] == P[A] | P[B] seen through a provider), for every
+# request of the retort, not only the first one.
+FACADE_N = 3
+FACADE_ATOMS = ([["cls", i] for i in range(FACADE_N)] + [["field", i] for i in range(FACADE_N)]
+                + [["chain", i] for i in range(FACADE_N)] + [["pcls", i] for i in range(FACADE_N)]
+                + [["pair", i, (i + 1) % FACADE_N] for i in range(FACADE_N)] + [["never"]])
+FACADE_FACTORIES = ["enum_by_name", "flag_by_member_names", "enum_by_value"]
+_FACADE_WORLDS = {}
+
+
+def facade_world(factory):
+    if factory not in _FACADE_WORLDS:
+        import dataclasses  # noqa: PLC0415
+        import enum  # noqa: PLC0415
+        from decimal import Decimal  # noqa: PLC0415
+        base = enum.Flag if factory == "flag_by_member_names" else enum.Enum
+        one, two = (Decimal(1), Decimal(2)) if factory == "enum_by_value" else (1, 2)
+        enums = [base(f"FE{i}_{factory}", {"A": one, "B": two}) for i in range(FACADE_N)]
+        item = dataclasses.make_dataclass(f"FItem_{factory}", [(f"e{i}", enums[i]) for i in range(FACADE_N)])
+        _FACADE_WORLDS[factory] = (enums, item)
+    return _FACADE_WORLDS[factory]
+
+
+def facade_pred(atom, enums, item):
+    k = atom[0]
+    if k == "cls":
+        return enums[atom[1]]
+    if k == "field":
+        return f"e{atom[1]}"
+    if k == "chain":
+        return getattr(P[item], f"e{atom[1]}")
+    if k == "pcls":
+        return P[enums[atom[1]]]
+    if k == "pair":
+        return P[enums[atom[1]], enums[atom[2]]]
+    return str   # no str location in the world
+
+
+def facade_matched(preds):
+    if not preds:
+        return set(range(FACADE_N))   # no predicate: the provider is not bound at all
+    out = set()
+    for a in preds:
+        out |= set(a[1:]) if a[0] != "never" else set()
+    return out
+
+
+def enum_facade(tier):
+    for factory in FACADE_FACTORIES:
+        for n in range(4):
+            for j, preds in enumerate(itertools.product(FACADE_ATOMS, repeat=n)):
+                if n == 3 and tier == "quick" and j % 9:
+                    continue
+                if factory == "enum_by_value" and n == 0:
+                    continue   # its first predicate is mandatory
+                yield {"kind": "facade", "factory": factory, "preds": [list(a) for a in preds]}
+
+
+def check_facade(ctx, case):
+    import adaptix  # noqa: PLC0415
+    factory, preds = case["factory"], case["preds"]
+    enums, item = facade_world(factory)
+    real = [facade_pred(a, enums, item) for a in preds]
+    if factory == "enum_by_value":
+        from decimal import Decimal  # noqa: PLC0415
+        provider = adaptix.enum_by_value(*real, tp=Decimal)   # Decimal loader/dumper of the value: Decimal(1) <-> "1"
+        hit, miss = (lambda v: str(v)), (lambda v: Decimal(v))
+    elif factory == "enum_by_name":
+        provider = adaptix.enum_by_name(*real)
+        hit, miss = (lambda v: "A"), (lambda v: v)
+    else:
+        provider = adaptix.flag_by_member_names(*real)
+        hit, miss = (lambda v: ["A"]), (lambda v: v)
+    expected_set = facade_matched(preds)
+    obj = item(*[e.A for e in enums])
+    expected = {f"e{i}": (hit(1) if i in expected_set else miss(1)) for i in range(FACADE_N)}
+    retort = Retort(recipe=[provider])
+    got = [retort.dump(obj), retort.dump(obj)]
+    try:
+        back = retort.load(expected, item)
+    except Exception as e:  # noqa: BLE001
+        back = describe(e)
+    ctx.case(["facade", factory, preds], len(preds) >= 2 and 0 < len(expected_set) < FACADE_N,
+             sample={"factory": factory, "preds": preds, "dumped": got[0]},
+             labels=["part:facade", f"facade:{factory}", f"facade_preds:{len(preds)}"])
+    if got[0] != expected or got[1] != expected or back != obj:
+        ctx.violation("facade_multi_pred", (factory, min(len(preds), 2)), case,
+                      f"{factory}({', '.join(map(str, preds))}) must apply exactly to the enums {sorted(expected_set)} "
+                      f"(where any predicate matches): expected dump {expected}, got {got[0]} then {got[1]}; "
+                      f"load of the expected form gave {back!r}")
+
+
 def check_case(ctx: runner.Ctx, case):
     k = case["kind"]
-    if k == "pure":
+    if k == "facade":
+        check_facade(ctx, case)
+    elif k == "pure":
         check_pure(ctx, case)
     elif k == "table":
         check_table(ctx, case)
@@ -1231,6 +1328,19 @@ def explore(ctx: runner.Ctx):
             break
         for sname in sets:
             check_case(ctx, {"kind": "law", "law": name, "lhs": lhs, "rhs": rhs, "set": sname})
+    # 3a. facade factories with several predicates (small exhaustive sweep)
+    n_facade = 0
+    for i, fcase in enumerate(enum_facade(ctx.tier)):
+        n_facade += 1
+        if i % ctx.nshards != ctx.shard:
+            continue
+        if ctx.out_of_time():
+            break
+        runner.guarded(ctx, lambda c: check_case(ctx, c), fcase)
+    ctx.mark_exhaustive(
+        f"facade factories: {n_facade} calls = {', '.join(FACADE_FACTORIES)} x every list of 0-3 predicates over "
+        f"{len(FACADE_ATOMS)} atoms (class, field name, P chain, P[class], P[class, class], a never-matching class) in a "
+        f"world of {FACADE_N} enum fields" + (" (quick: every 9th list of length 3)" if ctx.tier == "quick" else ""))
     # 3b. pattern reuse: programs over shared pattern objects (small exhaustive sweep)
     n_reuse = 0
     reuse_sets = ["R3"] if ctx.tier == "quick" else ["R3", "R4"]
